@@ -3,6 +3,7 @@ package main
 import (
 	"fmt"
 	"go/ast"
+	"strings"
 )
 
 // Regenerated kernels of the TLS presentation codec (tls/tls.go), property C09:
@@ -26,6 +27,50 @@ func ifBodyKernel(rel, fn, cond, leanName, params, resultTy, tail string, sp Spe
 	}
 }
 
+// caseBodyKernel translates the body of the clause `case <caseExpr>:` of the unique `switch <tag>` in fn that has such a clause,
+// up to (not including) the first statement whose source starts with `until` ("" = the whole clause); reaching that point is `tail`.
+func caseBodyKernel(rel, fn, tag, caseExpr, until, leanName, params, resultTy, prelude, tail string, sp Spec) func() string {
+	return func() string {
+		fd := mustFunc(rel, fn)
+		var bodies [][]ast.Stmt
+		ast.Inspect(fd.Body, func(n ast.Node) bool {
+			sw, ok := n.(*ast.SwitchStmt)
+			if !ok || sw.Tag == nil || src(sw.Tag) != tag {
+				return true
+			}
+			for _, c := range sw.Body.List {
+				cc := c.(*ast.CaseClause)
+				for _, e := range cc.List {
+					if src(e) == caseExpr {
+						bodies = append(bodies, cc.Body)
+					}
+				}
+			}
+			return true
+		})
+		if len(bodies) != 1 {
+			panic(bail{fmt.Sprintf("%s: expected exactly one `switch %s { case %s: }` in %s, found %d", rel, tag, caseExpr, fn, len(bodies))})
+		}
+		body := bodies[0]
+		if until != "" {
+			cut := -1
+			for i, st := range body {
+				if strings.HasPrefix(src(st), until) {
+					cut = i
+					break
+				}
+			}
+			if cut < 0 {
+				panic(bail{fmt.Sprintf("%s: no statement starting with `%s` in case %s of %s", rel, until, caseExpr, fn)})
+			}
+			body = body[:cut]
+		}
+		t := &tr{sp: sp, file: parseFile(rp(rel))}
+		return fmt.Sprintf("/-- generated from %s func %s: `switch %s { case %s: … }`%s -/\ndef %s %s : %s :=\n  %s%s\n", rel, fn, tag, caseExpr,
+			map[bool]string{true: " up to `" + until + "…`", false: ""}[until != ""], leanName, params, resultTy, prelude, t.block(body, tail, "  "))
+	}
+}
+
 func init() {
 	f := "tls/tls.go"
 	register(genFile{name: "Tls", imports: []string{"CTV.Basic.I64"}, units: []unit{
@@ -38,5 +83,40 @@ func init() {
 			Spec{Kind: "u64", Ret: "errlastbool", IgnoreLHS: []string{"info.name"},
 				Repl: map[string]string{`info.selector == ""`: "selEmpty", `info.selector != ""`: "(!selEmpty)"},
 				Vars: map[string]string{"info.count": "count_", "info.countSet": "countSet_", "info.minlen": "minlen_", "info.maxlen": "maxlen_", "info.val": "val_"}})},
+		// whole bodies of the non-reflective entry points: the order of the tests and what each hands back (0 nothing, 1 the value / rest)
+		{"readVarUint", handlerKernel(f, "readVarUint", "readVarUintBody", "(noSize short checkFails : Bool)", "Nat × Bool", "", "(0, false)",
+			Spec{Kind: "u64", Lazy: true, Ret: "statusstate", Status: map[string]int{"0": 0, "result": 1},
+				IgnoreLHS: []string{"result"},
+				InitCond:  map[string]string{"err := info.check(result, info.name) ; err != nil": "checkFails"},
+				Repl:      map[string]string{"info == nil || !info.countSet": "noSize", "len(data) < int(info.count)": "short"}})},
+		// parseField, the vector case up to the element loop: the order of "length prefix readable and in range", "declared length
+		// fits the remaining input", the allocation (v.Set(reflect.MakeSlice…)) and the []byte fast path.  (status, error?, allocated?)
+		{"parseField.slice", caseBodyKernel(f, "parseField", "v.Kind()", "reflect.Slice", "for ", "parseSliceHead",
+			"(prefixBad tooLong isBytes : Bool)", "Nat × Bool × Bool", "let alloc_ := false\n  ", "((2 : Nat), false, alloc_)",
+			Spec{Kind: "u64", Lazy: true, Ret: "statusstate", Status: map[string]int{"offset": 0}, StateVars: []string{"alloc_"},
+				IgnoreLHS: []string{"offset", "rest", "sliceType", "inner", "single", "datalen"},
+				Ignore:    []string{"copyBytes"},
+				ErrCalls:  map[string]string{"readVarUint": "prefixBad"},
+				Effects:   map[string]string{"v.Set": "alloc_ := true"},
+				Repl:      map[string]string{"varlen > uint64(len(rest))": "tooLong", "fieldType.Elem().Kind() == reflect.Uint8": "isBytes"}})},
+		{"parseField.array", caseBodyKernel(f, "parseField", "v.Kind()", "reflect.Array", "", "parseArrayBody",
+			"(tooLong notBytes : Bool)", "Nat × Bool", "", "((0 : Nat), false)",
+			Spec{Kind: "u64", Lazy: true, Ret: "statusstate", Status: map[string]int{"offset": 0},
+				IgnoreLHS: []string{"offset", "inner", "datalen"}, Ignore: []string{"copyBytes"},
+				Repl: map[string]string{"datalen > len(rest)": "tooLong", "fieldType.Elem().Kind() != reflect.Uint8": "notBytes"}})},
+		{"parseField.enum", caseBodyKernel(f, "parseField", "v.Kind()", "enumType.Kind()", "", "parseEnumBody",
+			"(prefixBad : Bool)", "Nat × Bool", "", "((0 : Nat), false)",
+			Spec{Kind: "u64", Lazy: true, Ret: "statusstate", Status: map[string]int{"offset": 0},
+				IgnoreLHS: []string{"offset"}, Ignore: []string{"v.SetUint"},
+				ErrCalls: map[string]string{"readVarUint": "prefixBad"}})},
+		{"UnmarshalWithParams", handlerKernel(f, "UnmarshalWithParams", "unmarshalWithParamsBody", "(tagBad parseFails : Bool)", "Nat × Bool", "", "(0, false)",
+			Spec{Kind: "u64", Lazy: true, Ret: "statusstate", Status: map[string]int{"nil": 0, "b[offset:]": 1},
+				IgnoreLHS: []string{"v"},
+				ErrCalls:  map[string]string{"fieldTagToFieldInfo": "tagBad", "parseField": "parseFails"}})},
+		{"MarshalWithParams", handlerKernel(f, "MarshalWithParams", "marshalWithParamsBody", "(tagBad marshalFails : Bool)", "Nat × Bool", "", "(0, false)",
+			Spec{Kind: "u64", Lazy: true, Ret: "statusstate", Status: map[string]int{"nil": 0, "out.Bytes()": 1},
+				IgnoreLHS: []string{"v", "out"},
+				ErrCalls:  map[string]string{"fieldTagToFieldInfo": "tagBad"},
+				InitCond:  map[string]string{"err := marshalField(&out, v, info) ; err != nil": "marshalFails"}})},
 	}})
 }
